@@ -289,6 +289,24 @@ CORPUS_CFG = [
 ]
 
 
+def perm_state_cfgs():
+    """deterministic: every permutation strategy x every permutation state (none/none, coarse only, fine only, both)
+    on three small base configurations; each `fe` case runs the matrix AND the matrix-free path"""
+    bases = [dict(shape="tria", space="l1", cub="lauffer-degree-2", level=1, affine=[], offsets=[]),
+             dict(shape="quad", space="l2", cub="simpson", level=1, affine=[], offsets=[F(1, 32), F(-1, 32), F(0)]),
+             dict(shape="tetra", space="l1", cub="hammer-stroud-degree-2", level=0, affine=[], offsets=[])]
+    out = []
+    for b in bases:
+        states = [(0, 0)]
+        for st in range(1, 8):
+            states += [(st, 0), (0, st), (st, st), (st, st % 7 + 1)]
+        for pc, pf in states:
+            c = dict(b)
+            c["perm_c"], c["perm_f"] = pc, pf
+            out.append(c)
+    return out
+
+
 # ---------------------------------------------------------------------------------------------
 # parsing
 # ---------------------------------------------------------------------------------------------
@@ -339,26 +357,49 @@ class Tk:
         return c
 
     def dump(self, dim=0):
+        """mesh-indexed ingredients -> per (coarse cell, child) data through the oracle's own cell lookups
+        (2-level ordering c*nchild+child, forward coarse permutation, inverse fine permutation)"""
         self.expect("D")
-        nf, nc, ncells, nchild = self.nat(), self.nat(), self.nat(), self.nat()
-        cells = []
+        nf, nc, ncells, nchild, nfine, npts = [self.nat() for _ in range(6)]
+        self.expect("CP")
+        cp = self.nlist()
+        self.expect("FP")
+        fp = self.nlist()
+        self.expect("PAT")
+        self.pat = (self.nlist(), self.nlist())
+        coarse = []
         for _ in range(ncells):
             cmap = self.nlist()
             cpts = []
             for _ in range(self.nat()):
                 w = self.q()
                 cpts.append((w, [self.q() for _ in cmap]))
+            ref = []
+            for _ in range(nchild * npts):
+                cv = [self.q() for _ in cmap]
+                ref.append((cv, [self.q() for _ in range(dim)]))
+            coarse.append((cmap, cpts, ref))
+        fine = []
+        for _ in range(nfine):
+            fmap = self.nlist()
+            pts = []
+            for _ in range(npts):
+                w = self.q()
+                fv = [self.q() for _ in fmap]
+                pts.append((w, fv, [self.q() for _ in range(dim)]))
+            fine.append((fmap, pts))
+        if (cp and sorted(cp) != list(range(ncells))) or (fp and sorted(fp) != list(range(nfine))):
+            raise ValueError("permutation arrays are not permutations")
+        self.perm_state = ("c" if cp else "-") + ("f" if fp else "-")
+        cells = []
+        for i, (cmap, cpts, ref) in enumerate(coarse):
+            c2 = cp[i] if cp else i
             children = []
-            for _ in range(nchild):
-                fmap = self.nlist()
-                pts = []
-                for _ in range(self.nat()):
-                    w = self.q()
-                    fv = [self.q() for _ in fmap]
-                    cv = [self.q() for _ in cmap]
-                    xf = [self.q() for _ in range(dim)]
-                    xc = [self.q() for _ in range(dim)]
-                    pts.append((w, fv, cv, xf, xc))
+            for ch in range(nchild):
+                f2 = c2 * nchild + ch
+                fc = fp[f2] if fp else f2
+                fmap, fpts = fine[fc]
+                pts = [(fpts[k][0], fpts[k][1], ref[ch * npts + k][0], fpts[k][2], ref[ch * npts + k][1]) for k in range(npts)]
                 children.append((fmap, pts))
             cells.append((cmap, cpts, children))
         return nf, nc, cells
@@ -376,7 +417,11 @@ def canon(out):
     return out
 
 
-def csr_dense(r, c, rp, ci, va):
+def csr_dense(r, c, rp, ci, va, need_sorted=False):
+    if not rp and not ci and not va:
+        return [[F(0)] * c for _ in range(r)]       # container without arrays
+    if need_sorted and any(ci[k] >= ci[k + 1] for i in range(r) for k in range(rp[i], rp[i + 1] - 1)):
+        raise ValueError("column indices of a row not strictly increasing")
     if len(rp) != r + 1 or rp[0] != 0 or rp[-1] != len(ci) or len(ci) != len(va) or any(rp[i] > rp[i + 1] for i in range(r)):
         raise ValueError("malformed CSR arrays")
     m = [[F(0)] * c for _ in range(r)]
@@ -486,9 +531,9 @@ def _oracle(case, out):
         rr, rc, rrp, rci, rva = o.csr()
         if (rr, rc) != (pc, pr):
             return "restriction has dimensions %dx%d" % (rr, rc)
-        if pva and rrp == [0] * (rr + 1) and len(rva) == 0 and any(v != 0 for v in pva):
-            return "restriction lost all entries"
-        r = csr_dense(rr, rc, rrp, rci, rva) if (rva or rrp != [0]) else [[F(0)] * rc for _ in range(rr)]
+        if len(rva) != len(pva):
+            return "restriction stores %d entries, the prolongation %d" % (len(rva), len(pva))
+        r = csr_dense(rr, rc, rrp, rci, rva)
         if r != transpose(p, pr, pc):
             return "restriction is not the transpose of the prolongation"
         o.expect("XP")
@@ -522,6 +567,8 @@ def _oracle(case, out):
             o.expect("T"); traw = o.dense()
             o.expect("TD"); td = o.dense()
             o.expect("R"); r = o.dense()
+            o.expect("PC"); pcsr = o.csr()
+            o.expect("RC"); rcsr = o.csr()
             o.expect("VF"); vf = o.qlist()
             o.expect("VW"); vw = o.qlist()
             o.expect("VD"); vd = o.qlist()
@@ -541,6 +588,11 @@ def _oracle(case, out):
                 return e
             if r != transpose(pd, nf, nc):
                 return "restriction is not the transpose of the prolongation"
+            if csr_dense(*pcsr, need_sorted=True) != pd or (list(pcsr[2]), list(pcsr[3])) != (c.pat[0], c.pat[1]):
+                return "CSR arrays of the prolongation do not match its entries / its 2-level layout"
+            if (rcsr[0], rcsr[1]) != (nc, nf) or csr_dense(*rcsr, need_sorted=True) != transpose(pd, nf, nc) \
+                    or len(rcsr[4]) != len(pcsr[4]):
+                return "restriction (CSR arrays) is not the transpose of the prolongation"
             e = is_identity(matmul(td, pd), exact == "exact") if exact else None
             if e:
                 return "truncation is not a left inverse of the prolongation: " + e
@@ -691,7 +743,7 @@ def main(argv):
         fe = [case] if case.startswith("fe ") else []
         feo = [case] if case.startswith("feo ") else []
     else:
-        n_alg, n_fe = (1500, 70) if args.tier == "quick" else (20000, 350)
+        n_alg, n_fe = (1500, 50) if args.tier == "quick" else (20000, 350)
         alg = list(CORPUS)
         for _ in range(n_alg):
             if rng.random() < 0.6:
@@ -700,7 +752,7 @@ def main(argv):
                 alg.append(line)
             else:
                 alg.append(gen_xfer(rng))
-        cfgs = list(CORPUS_CFG) + [gen_config(rng, args.tier) for _ in range(n_fe)]
+        cfgs = list(CORPUS_CFG) + perm_state_cfgs() + [gen_config(rng, args.tier) for _ in range(n_fe)]
         fe, feo, skipped = build_fe_cases(rng, binary, cfgs)
     streams = []
     if alg:
@@ -716,13 +768,17 @@ def main(argv):
             "and invalid), random CSR prolongation/truncation matrices 0..13 x 0..8 incl. empty, unsorted rows, explicit "
             "zeros; fe: quads/triangles (levels 0-2), hexahedra/tetrahedra (level 0-1), Lagrange1/2, Bernstein2, "
             "discontinuous P0/P1, 20 tensor + 18 simplex cubature rules (also insufficient ones), 7 mesh permutation "
-            "strategies on either level, unit / scaled / affine / non-affinely distorted geometry; non-trivial = n >= 2 "
+            "strategies on either level (deterministically: every strategy x {none/none, coarse only, fine only, both} "
+            "on 3 base configurations, matrix and matrix-free path in every case), unit / scaled / affine / "
+            "non-affinely distorted geometry; non-trivial = n >= 2 "
             "(inv), >= 2 stored entries (xfer), shared fine dofs or >= 2 coarse cells (fe); configurations whose rule "
             "name is unknown for the shape are skipped (%d skipped)" % skipped)
     return vlib.run_pipeline(PROP, args.tier, args.seed, lean, streams, t0, assumptions=[
         "scalars are exact rationals (the same template source runs at double in production; rounding is outside C18's claim here)",
         "the ingredients of an fe case (basis values, weights, dof mappings, cell mapping) are read off the real evaluators "
         "by the harness; the FE-level meaning of these ingredients is checked by the independent oracle, not by the model",
+        "the CSR layout of the prolongation matrix (SymbolicAssembler 2-level graph) is an input of the fe cases; its "
+        "validity (hypothesis of C18.restriction_is_transpose) is checked per case by the oracle, not proved",
         "PermutationStrategy::lexicographic cannot be instantiated at Q (static constexpr Coord_ tol_) and is not covered",
         "Global::Transfer / Muxer (MPI) level of the property is not covered by this check (C13 covers synchronisation)"],
         extra_cov={"rule": rule, "skipped_unknown_rule": skipped})
